@@ -6,6 +6,7 @@ let () =
   (match Array.to_list Sys.argv with
    | [ _; "http"; file ] -> Drv_http.http file
    | [ _; "proto"; file ] -> Drv_proto.proto file
+   | [ _; "absval"; file; handle; tyid ] -> Drv_absval.absval file handle tyid
    | [ _; "codec-mesh"; file ] -> Drv_codec.codec_mesh file
    | [ _; "codec-image"; file ] -> Drv_codec.codec_image file
    | [ _; "codec-msg"; file ] -> Drv_codec.codec_msg file
